@@ -14,6 +14,9 @@ Local Open Scope N_scope.
 Inductive step :=
 | Req (c img : N)              (* caller c runs the critical section of handleRequest(img) *)
 | Done (img : N) (res : bool)  (* the pull goroutine of img runs the critical section of handleResponse *)
+| Fail (c : N)                 (* caller c calls Pull with a reference on which the registry-host override fails
+                                  (applyOverride, request_manager.go:62-65): Pull returns (nil, err) before
+                                  handleRequest; [Req c img] is a Pull whose override step succeeded with img *)
 | Cancel (c : N).              (* the context caller c passed to Pull is cancelled while c waits.  Pull
                                   (request_manager.go:67) receives from the channel unconditionally and
                                   never looks at ctx.Done(): no effect on the manager, c keeps waiting. *)
@@ -23,7 +26,8 @@ Definition copyid := (N * N)%type.
 
 Inductive event :=
 | PullStarted (img n : N)                                      (* `go func(){ r.pullImage(..) .. }` request_manager.go:92-98 *)
-| Response (c img n : N) (res : bool) (copy : option copyid).  (* `recv <- response{..}` request_manager.go:128-131 *)
+| Response (c img n : N) (res : bool) (copy : option copyid)   (* `recv <- response{..}` request_manager.go:128-131 *)
+| Rejected (c : N).                                            (* `return nil, err` request_manager.go:64 *)
 
 (** An entry of [r.inFlight]: the receivers in registration order.  [e_pull] is a ghost field:
     the number of the pull goroutine that will call handleResponse for this entry. *)
@@ -58,6 +62,7 @@ Definition step_events (s : state) (x : step) : list event :=
       | Some e => broadcast img (e_pull e) res 0 (e_recv e)
       | None => []                                  (* ranging over a missing key: no iteration *)
       end
+  | Fail c => [Rejected c]
   | Cancel _ => []
   end.
 
@@ -78,6 +83,9 @@ Definition do_step (s : state) (x : step) : state :=
   | Done img res =>
       (* request_manager.go:134: delete(r.inFlight, image), also when there is no entry *)
       {| inflight := set (inflight s) img None; next := next s; log := log s ++ step_events s x |}
+  | Fail _ =>
+      (* the manager's state is not touched before handleRequest *)
+      {| inflight := inflight s; next := next s; log := log s ++ step_events s x |}
   | Cancel _ =>
       (* nothing in RequestManager reads the caller's context while it waits *)
       {| inflight := inflight s; next := next s; log := log s ++ step_events s x |}
@@ -102,6 +110,7 @@ Fixpoint waiting (img : N) (rsteps : list step) : list N :=
   | [] => []
   | Req c i :: r => if i =? img then waiting img r ++ [c] else waiting img r
   | Done i _ :: r => if i =? img then [] else waiting img r
+  | Fail _ :: r => waiting img r
   | Cancel _ :: r => waiting img r      (* a cancelled caller is still registered and still answered *)
   end.
 
@@ -115,6 +124,7 @@ Fixpoint wf_rev (rsteps : list step) : bool :=
   | [] => true
   | Req _ _ :: r => wf_rev r
   | Cancel _ :: r => wf_rev r
+  | Fail _ :: r => wf_rev r
   | Done img _ :: r => negb (is_nilb (waiting img r)) && wf_rev r
   end.
 Definition wf (steps : list step) : bool := wf_rev (rev steps).
@@ -127,6 +137,10 @@ Definition count_req (c img : N) (steps : list step) : nat :=
   length (filter (fun x => match x with Req c' i => (c' =? c) && (i =? img) | _ => false end) steps).
 Definition count_resp (c img : N) (l : list event) : nat :=
   length (filter (fun e => match e with Response c' i _ _ _ => (c' =? c) && (i =? img) | _ => false end) l).
+Definition count_fail (c : N) (steps : list step) : nat :=
+  length (filter (fun x => match x with Fail c' => c' =? c | _ => false end) steps).
+Definition count_rejected (c : N) (l : list event) : nat :=
+  length (filter (fun e => match e with Rejected c' => c' =? c | _ => false end) l).
 Definition count_in (c : N) (l : list N) : nat := length (filter (N.eqb c) l).
 
 (** Number of the most recently started pull for [img]. *)
